@@ -1,6 +1,6 @@
 SPECIFICATION Spec
 CONSTANTS
-  Fams = {"cross4", "corner", "mixed4"}
+  Fams = {"lshape", "para"}
   MaxRoutes = 2
   PerClass = 2
   DEV_RemoveNoRebuild = FALSE
